@@ -292,6 +292,8 @@ pub fn run_op(fam: &str, name: &str, input: &Value) -> Value {
                 crate::aread::run_script(&frames, input["cut"].as_u64().unwrap() as usize, input["maxlen"].as_u64().unwrap() as u32, &sched)
             }
             #[cfg(all(feature = "alloc", feature = "half"))]
+            "tok" => if name == "bytes" { crate::toks::op_bytes(&get_bytes(&input["buf"])) } else { crate::toks::op_toks(&input["toks"]) },
+            #[cfg(all(feature = "alloc", feature = "half"))]
             "display" => crate::disp::fmt(&get_bytes(&input["buf"])),
             #[cfg(feature = "std")]
             "sink" => crate::sinks::raw(name, input),
